@@ -35,7 +35,7 @@ VALIDATE_POS = {'add_edge': 5, 'add_edge_by_pair': 5, 'add_edge_obj': 5, 'add_ti
 
 class Lane(LaneBase):
     PROP = 'C02'
-    THEOREMS = ['CG.selfDepR_iff']
+    THEOREMS = 'auto'
     AUDIT = 'CG/Audit/C02.lean'
     RULE = ('(a) random mutation histories on both classes, cycle-closing edges arriving by every route (add_edge, '
             'change_edge_type to ->, replace_edge, replace_node, paths, pairs, time edges), validate on/off; after '
